@@ -1,7 +1,7 @@
 cr = "\n"
 
 s = "####################################################################" + cr
-s += "#  FINANCEPY BETA Version " + str('0.360') + " - This build: 01 Oct 2024 at 10:42 #" + cr
+s += "#  FINANCEPY BETA Version " + str('0.360') + " - This build: 17 Sep 2026 at 07:14 #" + cr
 s += "#     This software is distributed FREE AND WITHOUT ANY WARRANTY   #" + cr
 s += "#  Report bugs as issues at https://github.com/domokane/FinancePy  #" + cr
 s += "####################################################################"
